@@ -10,7 +10,7 @@
     Spec (C18/Spec.v): [lq_step]/[ls_step] are the FIFO/LIFO machines on a plain [list V];
     [added ops] are the values put in by the history, [removed ops outs] the values handed out by
     its successful Dequeue/Pop calls, both in call order. *)
-From Algo.C18 Require Import Model Spec Abs Unfixed Proofs ProofsStack ProofsSoft ProofsOrder ProofsAbs.
+From Algo.C18 Require Import Model Spec Abs Unfixed Proofs ProofsStack ProofsSoft ProofsOrder ProofsAbs ProofsUnfixed.
 From Coq Require Import Permutation.
 Open Scope Z_scope.
 
@@ -214,6 +214,15 @@ Theorem C18_D18_unfixed_code_refuted :
           [1; 2; 3; 4; 5; 7; 8; 64]%nat = true.
 Proof. exact d18_unfixed_panics_fixed_does_not. Qed.
 
+(** ... and for EVERY block size [ns >= 1], element type and values: filling exactly one block,
+    draining it and enqueueing once more panics in the model of the pre-fix code — the defect
+    did not depend on the block size, only on draining exactly at a block boundary. *)
+Theorem C18_D18_unfixed_code_panics_for_every_block_size :
+  forall (V : Type) (zero : V) (eqb : V -> V -> bool) (ns : nat) (vs : list V) (v : V),
+    (1 <= ns)%nat -> length vs = ns ->
+    q_run_unfixed V zero eqb (Z.of_nat ns) (map OpAdd vs ++ repeat OpRemove ns ++ [OpAdd v]) = Panic.
+Proof. exact unfixed_panics_for_every_block_size. Qed.
+
 (** The hypothesis [1 <= nodeSize] is necessary: with block size 0 the first Enqueue panics. *)
 Example C18_example_blocksize_zero_panics :
   q_run Z 0 Z.eqb 0 [OpAdd 1] = Panic /\ s_run Z 0 Z.eqb 0 [OpAdd 1] = Panic.
@@ -230,3 +239,4 @@ Print Assumptions C18_softqueue_refines.
 Print Assumptions C18_softqueue_enqueue_index_is_stable.
 Print Assumptions C18_softqueue_front_value_and_index.
 Print Assumptions C18_softqueue_contains_first_position.
+Print Assumptions C18_D18_unfixed_code_panics_for_every_block_size.
